@@ -29,22 +29,40 @@ class _NotEligible(Exception):
     pass
 
 
-def anchored_names() -> frozenset:
-    """Identifiers that occur in the anchors of the given properties (these functions stay analysis units)."""
-    p = Path(__file__).resolve().parent.parent / "properties.jsonl"
-    names = set()
-    try:
-        for line in p.read_text().splitlines():
-            if not line.strip():
-                continue
-            d = json.loads(line)
-            a = d.get("anchors", {})
-            texts = [json.dumps(a)]
-            for t in texts:
-                names.update(re.findall(r"[A-Za-z_][A-Za-z0-9_]*", t))
-    except OSError:
-        pass
-    return frozenset(names)
+_ANCHOR_CACHE = {}
+
+
+def anchored_names(relpath=None) -> frozenset:
+    """Identifiers that occur in the anchors of the given properties (these functions stay analysis units).  A mechanism's
+    `where` names its file ("dissect/hypervisor/disk/hdd.py: HDS._iter_runs"): such names are anchors in that file only, so
+    that a private helper of another module that happens to share the name stays transparent."""
+    if not _ANCHOR_CACHE:
+        p = Path(__file__).resolve().parent.parent / "properties.jsonl"
+        glob, per_file = set(), {}
+        try:
+            for line in p.read_text().splitlines():
+                if not line.strip():
+                    continue
+                a = json.loads(line).get("anchors", {})
+                for m in a.get("mechanism", []):
+                    where = m.get("where", "")
+                    glob.update(re.findall(r"[A-Za-z_][A-Za-z0-9_]*", m.get("name", "")))
+                    for part in re.split(r";", where):
+                        mm = re.match(r"\s*((?:[\w/]*?\w+\.py)(?:\s*/\s*[\w/]*?\w+\.py)*)\s*:(.*)$", part, re.S)
+                        if mm:
+                            for fname in re.findall(r"\w+\.py", mm.group(1)):
+                                per_file.setdefault(fname, set()).update(re.findall(r"[A-Za-z_][A-Za-z0-9_]*", mm.group(2)))
+                        else:
+                            glob.update(re.findall(r"[A-Za-z_][A-Za-z0-9_]*", part))
+                rest = {k: v for k, v in a.items() if k != "mechanism"}
+                glob.update(re.findall(r"[A-Za-z_][A-Za-z0-9_]*", json.dumps(rest)))
+        except OSError:
+            pass
+        _ANCHOR_CACHE["glob"] = frozenset(glob)
+        _ANCHOR_CACHE["per_file"] = {k: frozenset(v) for k, v in per_file.items()}
+    if relpath is None:
+        return _ANCHOR_CACHE["glob"] | frozenset(x for v in _ANCHOR_CACHE["per_file"].values() for x in v)
+    return _ANCHOR_CACHE["glob"] | _ANCHOR_CACHE["per_file"].get(relpath.rsplit("/", 1)[-1], frozenset())
 
 
 def _has(node, types) -> bool:
@@ -148,6 +166,36 @@ def _eligible_generator(fn: ast.FunctionDef, anchored, local=False):
     for y in ys:
         pass
     return loop if loop is not None else True
+
+
+def _continue_free(stmts):
+    """`stmts` (a loop body) with statement-level `continue`s expressed as if / else nesting, or None if a `continue` sits
+    somewhere this does not reach (inside try / with / nested else chains that also fall through)."""
+    out = []
+    for i, st in enumerate(stmts):
+        if isinstance(st, ast.Continue):
+            return out
+        if isinstance(st, ast.If) and any(isinstance(x, ast.Continue) for x in _walk_loop_own(st)):
+            rest = stmts[i + 1:]
+            body_leaves = bool(st.body) and isinstance(st.body[-1], ast.Continue)
+            else_leaves = bool(st.orelse) and isinstance(st.orelse[-1], ast.Continue)
+            if body_leaves and not any(isinstance(x, ast.Continue) for s_ in st.body[:-1] + st.orelse for x in _walk_loop_own(s_)):
+                tail = _continue_free(list(st.orelse) + rest)
+                if tail is None:
+                    return None
+                new = ast.copy_location(ast.If(test=st.test, body=st.body[:-1] or [ast.copy_location(ast.Pass(), st)], orelse=tail), st)
+                return out + [new]
+            if else_leaves and not any(isinstance(x, ast.Continue) for s_ in st.orelse[:-1] + st.body for x in _walk_loop_own(s_)):
+                tail = _continue_free(list(st.body) + rest)
+                if tail is None:
+                    return None
+                new = ast.copy_location(ast.If(test=st.test, body=tail or [ast.copy_location(ast.Pass(), st)], orelse=st.orelse[:-1]), st)
+                return out + [new]
+            return None
+        if any(isinstance(x, ast.Continue) for x in _walk_loop_own(st)):
+            return None
+        out.append(st)
+    return out
 
 
 def _strip_doc(body):
@@ -534,7 +582,13 @@ class _Inliner:
                 bound[p] = copy.deepcopy(fn.args.defaults[j])
             else:
                 return None
-        # the consumer's body runs in place of the yield: its `continue` would skip what follows the yield in the generator
+        # the consumer's body runs in place of the yield: its `continue` would skip what follows the yield in the generator;
+        # guard-clause continues (`if c: ...; continue` at statement level) are first rewritten as if / else
+        if any(isinstance(x, ast.Continue) for s_ in st.body for x in _walk_loop_own(s_)):
+            rewritten = _continue_free(copy.deepcopy(st.body))
+            if rewritten is not None:
+                st = ast.copy_location(ast.For(target=st.target, iter=st.iter, body=rewritten or [ast.copy_location(ast.Pass(), st)], orelse=st.orelse), st)
+                ast.fix_missing_locations(st)
         body_has_continue = any(isinstance(x, ast.Continue) for s_ in st.body for x in _walk_loop_own(s_))
         gbody = copy.deepcopy(_strip_doc(fn.body))
         gloop = gbody[-1] if isinstance(shape, (ast.While, ast.For)) else None
@@ -707,10 +761,10 @@ class _Inliner:
         return ast.copy_location(ast.Name(id=ret, ctx=ast.Load()), call)
 
 
-def inline_helpers(tree: ast.Module, anchored=None) -> int:
+def inline_helpers(tree: ast.Module, anchored=None, relpath=None) -> int:
     """Inline transparent private helpers in place; returns the number of call sites rewritten."""
     if anchored is None:
-        anchored = anchored_names()
+        anchored = anchored_names(relpath)
     try:
         n = _Inliner(tree, anchored).run()
     except RecursionError:
